@@ -316,4 +316,10 @@ def replay(ctx, rp):
     if not c:
         return {"fails": False, "note": "replay file carries no concrete input", "payload": rp}
     r = X.run_c06(ctx, [c])
+    # a change to a regenerated table moves the model along with the library: the replay is judged
+    # by the reference driver (tables the theorems were last proved for) as well, as search() does
+    try:
+        r["failures"] += X.run_c06(ctx, [c], ref=True)["failures"]
+    except Exception:  # noqa: BLE001  (reference driver unavailable)
+        pass
     return {"fails": bool(r["failures"]), "failures": r["failures"]}
